@@ -60,6 +60,7 @@ func (c *FakeConn) Close() error {
 	zzrt.Point()
 	if !c.IsClosed {
 		c.IsClosed = true
+		zzrt.ClosePoint()
 		zzrt.MarkClosed(c.ClosedCh)
 		close(c.ClosedCh)
 	}
